@@ -58,6 +58,7 @@ var commands = map[string]command{
 	"clientapi-replay":    clientapiReplay,
 	"clientdoc-replay":    clientdocReplay,
 	"builders-replay":     buildersReplay,
+	"compactjws-replay":   compactjwsReplay,
 	"docaccess-replay":    docaccessReplay,
 	"sizelimits-replay":   sizeLimitsReplay,
 	"clientsend-replay":   clientsendReplay,
